@@ -157,14 +157,14 @@ func reconstructAliasedMap(node *CandidateNode, context Context) error {
 				log.Debugf("an alias merge list!")
 				for index := len(valueNode.Content) - 1; index >= 0; index = index - 1 {
 					aliasNode := valueNode.Content[index]
-					err := applyAlias(node, aliasNode.Alias, index, context.ChildContext(newContent))
+					err := applyMergeValue(node, aliasNode, index, context.ChildContext(newContent))
 					if err != nil {
 						return err
 					}
 				}
 			} else {
 				log.Debugf("an alias merge!")
-				err := applyAlias(node, valueNode.Alias, index, context.ChildContext(newContent))
+				err := applyMergeValue(node, valueNode, index, context.ChildContext(newContent))
 				if err != nil {
 					return err
 				}
@@ -237,6 +237,17 @@ func explodeNode(node *CandidateNode, context Context) error {
 	default:
 		return nil
 	}
+}
+
+// what a merge key may hold: an alias of a map, or a map written in place (<<: {a: 1})
+func applyMergeValue(node *CandidateNode, mergeValue *CandidateNode, aliasIndex int, newContent Context) error {
+	switch mergeValue.Kind {
+	case AliasNode:
+		return applyAlias(node, mergeValue.Alias, aliasIndex, newContent)
+	case MappingNode:
+		return applyAlias(node, mergeValue, aliasIndex, newContent)
+	}
+	return fmt.Errorf("merge anchor only supports maps, got %v instead", mergeValue.Tag)
 }
 
 func applyAlias(node *CandidateNode, alias *CandidateNode, aliasIndex int, newContent Context) error {
